@@ -4,7 +4,9 @@ PROFILES = ["release"]
 RULE = ("harness c06: (a) GLWE / LWE secret-key encryption under controlled changes of plaintext, secret seed, error seed, mask seed "
         "(byte comparison of mask columns and body; the model encrypts the five input tuples itself), (b) standard GGLWE / switching / "
         "automorphism / tensor / GGLWE->GGSW / LWE switching / GLWE->LWE / LWE->GLWE keys, GGSW and the entries of a CGGI blind-rotation key: every cell reproduced by the model from (plaintext, secret, raw mask stream, "
-        "replayed errors) and error_is_full checked by the oracle with the exact phase, (c) statistics over >= 2^14 coefficients per layout "
+        "replayed errors; mask stream and errors of the WHOLE object are given, the model derives each entry's share) and error_is_full checked by "
+        "the oracle with the exact phase; masks of all cells of all entries pairwise distinct; compressed composite objects: stored seeds predicted from "
+        "the root seed through a seed->stream table (one- and two-level derivation) and pairwise distinct, (c) statistics over >= 2^14 coefficients per layout "
         "(two-sided variance band, chi-square on mask digits) as support")
 ASSUMPTIONS = ["release-mode (wrapping) integer semantics", "DFT-domain products exact inside the backend's magnitude domain (C07)",
                "statistics: the acceptance bands treat the rounded samples as Gaussian with variance in [V(1-2^-16), V(1+2^-16)+1/6] "
